@@ -42,6 +42,13 @@ pub fn parse_diags(stderr: &str) -> Vec<Diag> {
                 if let (Some(ln), Some(file)) = (ln, file) {
                     d.locs.push((file.to_string(), ln));
                 }
+            } else if let Some((num, _)) = t.split_once('|') {
+                // a source line shown in the gutter ("290 |   code"): every line the diagnostic talks about, in the
+                // file of the last location header (secondary labels such as "value moved into closure here" have
+                // no header of their own)
+                if let (Ok(ln), Some(file)) = (num.trim().parse::<usize>(), d.locs.last().map(|l| l.0.clone())) {
+                    d.locs.push((file, ln));
+                }
             }
         }
     }
